@@ -474,6 +474,21 @@ impl Server {
         })
     }
 
+    /// (info_hashes, max peers under one info_hash, signed info_hashes, max signed peers, immutable, mutable)
+    #[cfg(mainline_verif)]
+    pub fn verif_sizes(&self) -> (usize, usize, usize, usize, usize, usize) {
+        let (a, b) = self.peers.verif_sizes();
+        let (c, d) = self.signed_peers.verif_sizes();
+        (
+            a,
+            b,
+            c,
+            d,
+            self.immutable_values.len(),
+            self.mutable_values.len(),
+        )
+    }
+
     /// Handle get mutable request
     fn handle_get_mutable(
         &mut self,
